@@ -1,6 +1,7 @@
 //! C15: builders (fixed-depth builder, pack, to_lower_depth) and C09: well-formedness + views.
 use crate::util::*;
 use crate::bm::*;
+use crate::pos::fbits;
 use cdshealpix::nested::bmoc::*;
 
 fn opt_bmoc_line(m: &Option<Option<BMOC>>) -> String {
@@ -287,4 +288,35 @@ pub fn run_c09(out: &mut Out, rng: &mut Rng, thorough: bool) {
     if let Some(Some(m)) = catch(|| b.to_bmoc()) { views_case(out, &m, "builder-fixed"); }
   }
   for &d in &depths { for b in special_shapes(d) { views_case(out, &to_impl(&b), "special"); } }
+  // BMOCs handed out by the coverage functions (cone incl. the small-cone branch, custom, polygon, elliptical cone)
+  let th = crate::c05::thresholds();
+  for k in 0..(if thorough { 6000 } else { 900 }) {
+    let c = crate::c05::gen_cone(rng, thorough, &th);
+    let l = cdshealpix::nested::get_or_create(c.depth);
+    let res = catch(|| if c.dd == 0 { l.cone_coverage_approx(c.lon, c.lat, c.r) } else { l.cone_coverage_approx_custom(c.dd, c.lon, c.lat, c.r) });
+    out.rec(&format!("cone {} {} {} {} {}", c.depth, c.dd, fbits(c.lon), fbits(c.lat), fbits(c.r)), &match &res { Some(m) => bmoc_line(m), None => "panic".into() });
+    if let Some(m) = res { views_case(out, &m, if c.dd == 0 { "cone" } else { "cone-custom" }); }
+    if k % 3 == 0 {
+      let p = crate::c12::gen_poly(rng, thorough);
+      let lp = cdshealpix::nested::get_or_create(p.depth);
+      let exact = k % 6 == 0;
+      let res = catch(|| lp.polygon_coverage(&p.verts, exact));
+      if !exact {
+        let mut req = format!("polygon {} {}", p.depth, p.verts.len());
+        for v in &p.verts { req.push_str(&format!(" {} {}", fbits(v.0), fbits(v.1))); }
+        out.rec(&req, &match &res { Some(m) => bmoc_line(m), None => "panic".into() });
+      }
+      if let Some(m) = res { views_case(out, &m, if exact { "polygon-exact" } else { "polygon" }); }
+    }
+    if k % 3 == 1 {
+      // an elliptical cone of the same centre, a = the cone radius (below pi/2), b a fraction of it
+      if c.r < std::f64::consts::PI / 2.0 * 0.999 {
+        let b = c.r * *rng.pick(&[1.0, 0.5, 0.1, 0.01]);
+        let pa = rng.f01() * std::f64::consts::PI;
+        let res = catch(|| if c.dd == 0 { l.elliptical_cone_coverage(c.lon, c.lat, c.r, b, pa) } else { l.elliptical_cone_coverage_custom(c.dd, c.lon, c.lat, c.r, b, pa) });
+        out.rec(&format!("ellipse {} {} {} {} {} {} {}", c.depth, c.dd, fbits(c.lon), fbits(c.lat), fbits(c.r), fbits(b), fbits(pa)), &match &res { Some(m) => bmoc_line(m), None => "panic".into() });
+        if let Some(m) = res { views_case(out, &m, "elliptical-cone"); }
+      }
+    }
+  }
 }
